@@ -2,7 +2,10 @@ module verif
 
 go 1.26.8
 
-require github.com/vx-labs/wasp/v4 v4.0.0
+require (
+	github.com/vx-labs/mqtt-protocol v5.1.1+incompatible
+	github.com/vx-labs/wasp/v4 v4.0.0
+)
 
 require (
 	github.com/MauriceGit/skiplist v0.0.0-20191117202105-643e379adb62 // indirect
@@ -35,7 +38,6 @@ require (
 	github.com/tysontate/gommap v0.0.0-20190103205956-899e1273fb5c // indirect
 	github.com/vx-labs/cluster v1.7.10 // indirect
 	github.com/vx-labs/commitlog v1.2.4 // indirect
-	github.com/vx-labs/mqtt-protocol v5.1.1+incompatible // indirect
 	github.com/zond/gotomic v0.0.0-20160912093511-c442ca1e4aa6 // indirect
 	go.etcd.io/etcd v0.0.0-20200716221620-18dfb9cca345 // indirect
 	go.uber.org/atomic v1.6.0 // indirect
